@@ -198,7 +198,7 @@ func (e *Engine) doCall(st *State, fr *Frame, dst *ssa.Call, cc *ssa.CallCommon,
 	// push frame and explore the callee to completion, then try to merge the outcomes
 	nf := &Frame{fn: fn, block: fn.Blocks[0], regs: map[ssa.Value]Value{}, visits: map[int]int{}}
 	st.subAlloc++
-	nf.act = e.canonID(fmt.Sprintf("act|%s|%d", st.curKey, st.subAlloc))
+	nf.act = e.canonID(fmt.Sprintf("act|%s|%d", st.key(), st.subAlloc))
 	if dst != nil {
 		nf.result = dst
 	}
